@@ -432,6 +432,7 @@ func runC04(c *Ctx) {
 	checkSpecificKeysPlumbing(c, "plumbing.selected-keys")
 	checkDownloadWrites(c, "plumbing.download-writes")
 	checkGenericErrorDiscipline(c, "pkg/core")
+	checkUploadBatchProtocol(c, "index-count.batch-protocol")
 }
 
 // disjuncts splits a || b || c.
